@@ -438,6 +438,13 @@ pub fn exec(tag: i64, inp: &[i64]) -> Vec<i64> {
                 }
             }
             let mut o = Vec::new();
+            // (if the crate implements the trait for references, the reference must behave like
+            // the message itself: probe, see RefProbe)
+            if let Some(v) = (&RefProbe(&m)).via_ref() {
+                if v != acc_obs(&m) {
+                    return vec![-94];
+                }
+            }
             o.extend_from_slice(&b3(region(|| m.to_structured().to_bytes())));
             o.extend_from_slice(&b3(region(|| m.to_other::<StructuredShortMessage>().to_bytes())));
             o.extend_from_slice(&b3(region(|| StructuredShortMessage::from_other(&m).to_bytes())));
@@ -662,8 +669,33 @@ pub fn gen_c02(tier: Tier, seed: u64, em: &mut Emitter) {
     }
 }
 
+/// generic constructors: all 23 types x 3 constructors x channels x boundary arguments, and the
+/// named constructors on boundary arguments, for both built-in factories
+pub fn gen_ctor_records(r: &mut Rng, em: &mut Emitter) {
+    let codes: Vec<i64> = (0..7).map(|i| 128 + 16 * i).chain(240..256).collect();
+    for &k in &[K_RAW, K_STRUCT] {
+        for which in 0..3 {
+            for &code in &codes {
+                for c in 0..16 {
+                    for &(a, b) in &[(0i64, 0i64), (127, 127), (120, 1), (1, 64), (r.below(128) as i64, r.below(128) as i64)] {
+                        em.emit_k("constructors/generic", 61, vec![k, which, code, c, a, b]);
+                    }
+                }
+            }
+        }
+        for idx in 0..19i64 {
+            for &(x, y, z) in &[(0i64, 0i64, 0i64), (15, 127, 1), (7, 1, 127), (3, 64, 65), (9, 120, 5)] {
+                let (x, y) = match idx { 8 | 10 => (y, 0), 9 => (y * 128 + z, 0), 6 => (x, y * 128 + z), _ => (x, y) };
+                em.emit_k("constructors/named", 60, vec![k, idx, x, y, z]);
+            }
+        }
+    }
+}
+
 pub fn gen_c03(tier: Tier, seed: u64, em: &mut Emitter) {
     let mut r = Rng::new(seed ^ 0xC03);
+    // the implementations agree on construction as well (same arguments, either factory)
+    gen_ctor_records(&mut r, em);
     // all ordered pairs of implementations x the three conversions
     let mut combos = Vec::new();
     for &k1 in &KINDS {
